@@ -1,4 +1,6 @@
 import Autd3.Model.Fw
+import Autd3.Lemmas.SwapWF
+import Autd3.Lemmas.FwExamples
 /-!
 # C19 — the firmware model never aborts on anything the SDK can send
 First layer: the swap chain's `set` never leaves it in the state its `update` declares unreachable,
@@ -48,5 +50,182 @@ theorem accepted_finite_other_is_waitable :
   rcases hm with rfl | rfl | rfl | rfl | rfl <;> simp_all [Autd3.Gen.Cpu.TRANSITION_MODE_NONE,
     Autd3.Gen.Cpu.TRANSITION_MODE_SYNC_IDX, Autd3.Gen.Cpu.TRANSITION_MODE_SYS_TIME, Autd3.Gen.Cpu.TRANSITION_MODE_GPIO,
     Autd3.Gen.Cpu.TRANSITION_MODE_EXT, Autd3.Gen.Cpu.TRANSITION_MODE_IMMEDIATE]
+
+
+/-! ## (5) the swap-chain invariant
+
+`SwapWF w` (Lemmas/SwapWF.lean): `cur, req ∈ {0,1}`; `freq_div ≥ 1` and `cycle ≥ 1` for both segments;
+`state = WaitStart → mode ∈ {SyncIdx, SysTime _, GPIO _}` and `req ≠ cur`; and for both segments
+`tic_idx_offset[seg] ≤ cycle[seg]` unless `seg` is the target of the pending transition. -/
+
+/-- `Swapchain::update` never panics from a well-formed swap chain — for every GPIO input and every time
+(monotone or not) — keeps it well formed, leaves `freq_div`/`cycle` alone and produces `cur_idx < cycle[cur]` -/
+theorem swap_update_no_panic (w : Swap) (g : Nat → Bool) (t : Nat) (h : SwapWF w) :
+    ∃ w', w.update g t = .ok w' ∧ SwapWF w' ∧ w'.curIdx < sel w'.cycle w'.cur ∧
+      w'.freqDiv = w.freqDiv ∧ w'.cycle = w.cycle :=
+  update_ok w g t h
+
+/-- hence any number of clock updates at arbitrary times never panics -/
+theorem swap_updates_no_panic (g : Nat → Nat → Bool) (ts : List Nat) (w : Swap) (h : SwapWF w) :
+    ∃ w', ts.foldlM (fun w t => w.update (g t) t) w = .ok w' ∧ SwapWF w' := by
+  induction ts generalizing w with
+  | nil => exact ⟨w, rfl, h⟩
+  | cons t ts ih =>
+    obtain ⟨w1, h1, wf1, _⟩ := update_ok w (g t) t h
+    obtain ⟨w2, h2, wf2⟩ := ih w1 wf1
+    exact ⟨w2, by simp only [List.foldlM_cons, h1, bind, Except.bind]; exact h2, wf2⟩
+
+/-- `Swapchain::set` never panics from a well-formed swap chain and keeps it well formed when the request is
+for a segment in `{0,1}` with non-zero division and cycle, Immediate/Ext only go to the current segment or
+carry an infinite loop, and the current segment is not re-requested while a transition is pending (`SetOK`).
+The result has the requested mode, division and cycle, and is pending exactly for a finite loop to the other
+segment -/
+theorem swap_set_preserves (w : Swap) (t rep fd cyc req : Nat) (m : TMode) (h : SwapWF w)
+    (hs : SetOK w rep fd cyc req m) :
+    ∃ w', w.set t rep fd cyc req m = .ok w' ∧ SwapWF w' ∧ w'.mode = m ∧
+      sel w'.freqDiv req = fd ∧ sel w'.cycle req = cyc ∧
+      (w'.state = .waitStart ↔ (w.cur ≠ req ∧ rep ≠ 0xFFFF)) ∧
+      (w'.cur = if w.cur ≠ req ∧ rep ≠ 0xFFFF then w.cur else req) :=
+  set_ok w t rep fd cyc req m h hs
+
+/-- the CPU's `validate_transition_mode` provides the mode side condition of `SetOK` **when its belief is the
+swap chain's current segment**: an accepted Ext/Immediate request (any mode byte but `NONE`) goes to the
+current segment or carries an infinite loop -/
+theorem validate_gives_set_side_condition (belief seg rep modeByte value : Nat) (site : String) (m : TMode)
+    (w : Swap) (hb : modeByte < 256) (hne : modeByte ≠ Autd3.Gen.Cpu.TRANSITION_MODE_NONE)
+    (hv : validateTransitionMode belief seg rep modeByte = false)
+    (hd : decodeTMode modeByte value site = .ok m) (hbel : belief = w.cur) :
+    m.waitable = false → w.cur = seg ∨ rep = 0xFFFF :=
+  validate_gives_mode belief seg rep modeByte value site m w.cur hb hne hv hd hbel
+
+/-- characterisation of the panics of `Swapchain::update` when only the divisions and cycles are non-zero:
+the `unreachable!()` of a pending transition whose mode is Ext/Immediate (F15), or the underflow of
+`idx + cycle - tic_idx_offset` (stale start offset, F17/F18) — nothing else -/
+theorem swap_update_panics (w : Swap) (g : Nat → Bool) (t : Nat) (e : Panic)
+    (fd0 : 1 ≤ w.freqDiv.1) (fd1 : 1 ≤ w.freqDiv.2) (cy0 : 1 ≤ w.cycle.1) (cy1 : 1 ≤ w.cycle.2)
+    (h : w.update g t = .error e) :
+    (e = .unreachable "Swapchain::update: WaitStart with Ext/Immediate" ∧ w.state = .waitStart ∧
+      w.mode.waitable = false) ∨
+    e = .overflow "Swapchain::update: idx + cycle - tic_idx_offset" :=
+  update_error_cases w g t e fd0 fd1 cy0 cy1 h
+
+/-- **F15 is real in the model** (swap-chain level): a pending finite-loop SyncIdx request to S1 followed by a
+finite-loop Immediate request to S1 (accepted by the CPU because its belief already is S1) makes the next
+`update` reach `unreachable!()`.  So `SetOK.mode` cannot be dropped. -/
+theorem f15_unreachable :
+    f15SwapTrace = .error (.unreachable "Swapchain::update: WaitStart with Ext/Immediate") := by rfl
+
+/-- **new finding (F18), swap-chain level**: `SetOK.pending` cannot be dropped either — re-requesting the
+current segment with Ext while a transition to a segment with a stale start offset is pending makes a later
+`update` underflow `idx + cycle - tic_idx_offset` (a `usize` subtraction: panic in a build with overflow
+checks, a wild `cur_idx` otherwise) -/
+theorem f18_stale_offset_underflow :
+    f18SwapTrace = .error (.overflow "Swapchain::update: idx + cycle - tic_idx_offset") := by rfl
+
+/-! ### non-vacuity: the power-on swap chains are well formed, and so is a pending one -/
+
+example (now : Nat) : SwapWF (powerOnSwap now) :=
+  ⟨Nat.zero_le _, Nat.zero_le _, by simp [powerOnSwap], by simp [powerOnSwap], by simp [powerOnSwap],
+   by simp [powerOnSwap], (nomatch ·), (nomatch ·),
+   fun seg _ => Or.inr (by unfold sel powerOnSwap; split <;> simp)⟩
+
+example : ∃ w, (powerOnSwap 0).set 5 3 40 100 1 (.gpio 2) = .ok w ∧ SwapWF w ∧ w.state = .waitStart := by
+  refine ⟨_, rfl, ?_, rfl⟩
+  exact ⟨by decide, by decide, by decide, by decide, by decide, by decide, fun _ => rfl, fun _ => by decide,
+    fun seg hseg => by
+      by_cases h : seg = 1
+      · exact Or.inl ⟨rfl, h⟩
+      · have : seg = 0 := by omega
+        subst this; exact Or.inr (by decide)⟩
+
+
+/-! ## (6) the firmware state: `FwWF`, clock updates, frames
+
+`FwWF s` (Lemmas/FwSafe.lean): the seven BRAM arrays have their sizes and `numTr ≤ 256`; the internal flag word
+carries none of the `MOD_SET`/`STM_SET` request bits; the four sampling-division registers are `≥ 1`; the four
+loop-count registers equal the CPU's copies; both swap chains satisfy `SwapWF`.
+`Settled s`: the CPU's segment beliefs are the swap chains' current segments and no transition is pending. -/
+
+/-- a clock update (`update_with_sys_time` + `read_fpga_state`) never panics from a well-formed state, at any
+time, and keeps it well formed -/
+theorem update_no_panic (s : State) (t : Nat) (h : FwWF s) :
+    ∃ s', updateWithSysTime s t = .ok s' ∧ FwWF s' ∧ s'.modSegment = s.modSegment ∧ s'.stmSegment = s.stmSegment :=
+  updateWithSysTime_safe s t h
+
+/-- every configuration handler (Synchronize, firmware-info, Silencer, force-fan, reads-FPGA-state, PWE table,
+phase correction, GPIO outputs, emulate-GPIO-in, CPU-GPIO-out) and every unknown tag: `handle_payload`
+returns `.ok`, keeps `FwWF` and does not touch swap chains, loop counts, sampling divisions or beliefs -/
+theorem payload_config_no_panic (s : State) (d : Array Nat) (hc : IsCfg d) (h : FwWF s) :
+    ∃ s' ack, handlePayload s d = .ok (s', ack) ∧ FwWF s' ∧ SameCore s s' :=
+  payload_cfg_safe s d hc h
+
+/-- **no_panic_single**: `ecat_recv` never panics on ANY complete single-frame SDK frame — every tag of the
+dispatch table: Clear, Synchronize, firmware-info, Modulation (BEGIN∧END), SwapSegment::Modulation, Silencer,
+Gain, SwapSegment::Gain, GainSTM (BEGIN∧END), FociSTM (BEGIN∧END), SwapSegment::{GainSTM,FociSTM}, force-fan,
+reads-FPGA-state, PWE, phase correction, GPIO outputs, emulate-GPIO-in, CPU-GPIO-out, and unknown tags — with
+the header fields the SDK's packers produce (`FrameOK`/`SwapPayloadOK`: segment ≤ 1, sampling division ≥ 1,
+a real transition mode with GPIO pin < 4 when the TRANSITION flag is set, 1 ≤ foci per pattern, the foci of
+the frame fit the first page), in one or two slots with at most one swap-type operation per frame, from a
+well-formed state in which no transition is pending and the CPU's beliefs are the current segments; and the
+state stays well formed.  (Two swap-type operations in one frame can reproduce F15 within a single frame;
+a pending transition is exactly the F15/F18 situation — see `f15_unreachable`, `f18_stale_offset_underflow`.) -/
+theorem no_panic_single (s : State) (frame : Array Nat) (h : FwWF s) (hst : Settled s)
+    (hf : FrameOK frame) : ∃ s', ecatRecv s frame = .ok s' ∧ FwWF s' :=
+  ecatRecv_safe s frame h hst hf
+
+/-- per-handler form, every tag of the dispatch table (and unknown tags) -/
+theorem payload_no_panic (s : State) (d : Array Nat) (hp : SwapPayloadOK d) (h : FwWF s) (hst : Settled s) :
+    ∃ s' ack, handlePayload s d = .ok (s', ack) ∧ FwWF s' :=
+  payload_swap_safe s d hp h hst
+
+/-- `Clear` additionally re-establishes `Settled` -/
+theorem clear_no_panic (s : State) (d : Array Nat) (h : FwWF s) (hst : Settled s) :
+    ∃ s' ack, clear s d = .ok (s', ack) ∧ FwWF s' ∧ Settled s' :=
+  clear_safe s d h hst
+
+/-- **power-on**: `CPUEmulator::new(_, numTr)` with `numTr ≤ 256` never panics, whatever the wall clock reads,
+and yields a well-formed settled state (so the hypotheses of the theorems above hold at power-on) -/
+theorem power_on_wf (numTr now : Nat) (hn : numTr ≤ 256) :
+    ∃ s, Fw.new numTr now = .ok s ∧ FwWF s ∧ Settled s :=
+  new_safe numTr now hn
+
+/-- configuration frames need no `Settled`, and keep it -/
+theorem no_panic_config_frame (s : State) (frame : Array Nat) (h : FwWF s) (hf : CfgFrame frame) :
+    ∃ s', ecatRecv s frame = .ok s' ∧ FwWF s' ∧ (Settled s → Settled s') :=
+  ecatRecv_cfg_safe s frame h hf
+
+/-- **unbounded trace theorem for the configuration sub-alphabet**: any sequence of configuration frames
+(one or two slots) interleaved with clock updates at arbitrary times never panics from a well-formed state -/
+theorem no_panic_config_trace (evs : List Ev) (s : State) (h : FwWF s)
+    (hall : ∀ f, Ev.frame f ∈ evs → CfgFrame f) : ∃ s', evs.foldlM runEv s = .ok s' ∧ FwWF s' :=
+  cfg_trace_safe evs s h hall
+
+/-- the same from power-on: a device created with 249 transducers at any wall-clock time survives every history
+of configuration frames and clock updates -/
+theorem no_panic_config_trace_from_power_on (now : Nat) (evs : List Ev)
+    (hall : ∀ f, Ev.frame f ∈ evs → CfgFrame f) :
+    ∃ s', (Fw.new 249 now >>= fun s => evs.foldlM runEv s) = .ok s' ∧ FwWF s' := by
+  obtain ⟨s, e, wf, _⟩ := new_safe 249 now (by omega)
+  obtain ⟨s', e', wf'⟩ := cfg_trace_safe evs s wf hall
+  exact ⟨s', by rw [e]; exact e', wf'⟩
+
+/-- a swap-type frame directly after power-on (or after any `Clear`) is always safe -/
+theorem no_panic_first_frame (now : Nat) (frame : Array Nat) (hf : FrameOK frame) :
+    ∃ s', (Fw.new 249 now >>= fun s => ecatRecv s frame) = .ok s' ∧ FwWF s' := by
+  obtain ⟨s, e, wf, st⟩ := new_safe 249 now (by omega)
+  obtain ⟨s', e', wf'⟩ := ecatRecv_safe s frame wf st hf
+  exact ⟨s', by rw [e]; exact e', wf'⟩
+
+/-! ### non-vacuity -/
+
+example : FwWF wfExample ∧ Settled wfExample := ⟨wfExample_wf, wfExample_settled⟩
+example : CfgFrame silencerFrame := silencerFrame_cfg
+example : FrameOK gainSwapFrame := gainSwapFrame_ok
+example : ModFrameOK modPayload := modPayload_ok
+example : FociFrameOK fociPayload := fociPayload_ok
+example : ∃ s' ack, writeMod wfExample modPayload = .ok (s', ack) ∧ FwWF s' :=
+  writeMod_safe _ _ wfExample_wf wfExample_settled modPayload_ok
+example : ∃ s', ecatRecv wfExample gainSwapFrame = .ok s' ∧ FwWF s' :=
+  no_panic_single _ _ wfExample_wf wfExample_settled gainSwapFrame_ok
 
 end Autd3.C19
